@@ -112,8 +112,34 @@ def check(tree, s0, t0_parse, dialect, opts):
         if any(n.comments for n in t1.walk()):
             return ("comment_survives", s)
     if project(t1, opts, dialect) != project(t0_parse, opts, dialect):
-        return ("tree_differs", s)
+        return ("tree_differs", s, first_diff(t0_parse, t1))
     return ("ok", s != s0)
+
+
+def first_diff(a, b) -> str:
+    """Where two trees first differ, as Class.arg:what (used to tell findings on fixture statements apart)."""
+    sa, sb = [(a, "")], [(b, "")]
+    while sa and sb:
+        (x, px), (y, _) = sa.pop(), sb.pop()
+        if type(x) is not type(y):
+            return f"{px}:{type(x).__name__}!={type(y).__name__}"
+        for k in sorted(set(x.args) | set(y.args)):
+            if k == "quoted":
+                continue
+            vx, vy = x.args.get(k), y.args.get(k)
+            lx = vx if isinstance(vx, list) else ([] if vx is None or vx is False else [vx])
+            ly = vy if isinstance(vy, list) else ([] if vy is None or vy is False else [vy])
+            if len(lx) != len(ly):
+                return f"{type(x).__name__}.{k}:len"
+            for ex, ey in zip(lx, ly):
+                if isinstance(ex, exp.Expr) and isinstance(ey, exp.Expr):
+                    sa.append((ex, f"{type(x).__name__}.{k}"))
+                    sb.append((ey, ""))
+                elif isinstance(ex, exp.Expr) or isinstance(ey, exp.Expr):
+                    return f"{type(x).__name__}.{k}:kind"
+                elif ex != ey and not (isinstance(ex, str) and isinstance(ey, str) and ex.lower() == ey.lower()) and k != "quoted":
+                    return f"{type(x).__name__}.{k}:value"
+    return "?"
 
 
 def worker(shard, nshards, plan):
@@ -147,7 +173,11 @@ def worker(shard, nshards, plan):
                     if r[1]:
                         res["changed"].add(hash((dialect, sql, tuple(sorted(opts.items(), key=str)))) & 0xFFFFFFFFFF)
                     continue
-                key = (r[0], dialect or "base", tuple(sorted(opts)), tags)
+                vtags = tags
+                if tags and tags[0] in FIXTURE_ORIGINS:
+                    # fixture statements carry no construct tags: the place of the first difference tells findings apart
+                    vtags = (tags[0], r[2] if len(r) > 2 else type(tree).__name__)
+                key = (r[0], dialect or "base", tuple(sorted(opts)), vtags)
                 v = res["viol"].get(key)
                 if v is None:
                     res["viol"][key] = {"sql": sql, "opts": opts, "out": r[1], "count": 1}
@@ -160,6 +190,7 @@ def worker(shard, nshards, plan):
 
 
 OPTSETS = {}
+FIXTURE_ORIGINS = ("identity.sql", "pretty.sql", "dialect_tests")
 
 
 def run(ctx: Ctx) -> None:
@@ -180,6 +211,11 @@ def run(ctx: Ctx) -> None:
             plan.append((d, k2, "dev1"))
     pretty = [(s, ("pretty.sql",)) for s in corpus.pretty_sql()]
     ident = [(s, ("identity.sql",)) for s in corpus.identity_sql()]
+    by_d = {}
+    for d, sql in corpus.dialect_test_sql():
+        by_d.setdefault(d, []).append((sql, ("dialect_tests",)))
+    for d, sqls in sorted(by_d.items()):
+        plan.append((d, sqls, "dev1"))
     plan.append(("", pretty, "dev2"))
     plan.append(("", ident if not quick else ident[::3], "dev1"))
     res = ctx.run_shards(worker, ctx.jobs * 4, plan)
@@ -209,7 +245,7 @@ def run(ctx: Ctx) -> None:
             "evaluations": res["evaluations"],
             "distinct_nontrivial": len(res["changed"]),
             "rule": "trees = parses of G_core (comment-carrying grammar) k<=1 per dialect" + ("" if quick else " and ALL of k<=2 in the base dialect (1-option deviations)") + " + hand-written comment/newline statements + "
-                    "pretty.sql + identity.sql; options = full 6480-combination product for the simplest trees (base dialect), every 1- "
+                    "pretty.sql + identity.sql + every statement of tests/dialects/*.py in its own dialect (1-option deviations); options = full 6480-combination product for the simplest trees (base dialect), every 1- "
                     "and 2-option deviation from the defaults otherwise; non-trivial = (tree, dialect, options) whose text differs from "
                     "the default text.",
             "trees": res["trees"],
